@@ -154,6 +154,34 @@ func runC16(r *core.Run) {
 			listsOver([]int{math.MinInt, -1, 0, 1, math.MaxInt}, 2, func(s, e []int) bool { return emit(c16List{slices.Clone(s), slices.Clone(e)}) })
 		}, checkList)
 
+	core.Clause(r, "large-lists", core.Opts{Rule: "deterministic families of n intervals for n in {11,12,13,14,50,200,1000}: nested, staggered, duplicated, touching, reversed input order, with empty/inverted ones mixed in; every breakpoint and its neighbours queried; non-trivial = all"},
+		func(emit func(c16List) bool) {
+			for _, n := range []int{11, 12, 13, 14, 50, 200, 1000} {
+				for fam := 0; fam < 6; fam++ {
+					st, en := make([]int, n), make([]int, n)
+					for i := 0; i < n; i++ {
+						switch fam {
+						case 0: // nested
+							st[i], en[i] = i, 2*n-i
+						case 1: // staggered
+							st[i], en[i] = 3*i, 3*i+7
+						case 2: // duplicates and touching
+							st[i], en[i] = (i/3)*5, (i/3)*5+5
+						case 3: // reverse order, every 4th empty or inverted
+							st[i], en[i] = 2*(n-i), 2*(n-i)+3-(i%4)*2
+						case 4: // pseudo-random but fixed
+							st[i], en[i] = (i*7919)%(2*n)-n, (i*7919)%(2*n)-n+(i*104729)%17-3
+						case 5: // all share one start
+							st[i], en[i] = 0, i%9
+						}
+					}
+					if !emit(c16List{st, en}) {
+						return
+					}
+				}
+			}
+		}, checkList)
+
 	core.Clause(r, "length-mismatch", core.Opts{Rule: "all (len starts, len ends) in 0..3 x 0..3: NewIndex panics iff the lengths differ; non-trivial = all"},
 		func(emit func(c16Len) bool) {
 			for a := 0; a <= 3; a++ {
